@@ -99,18 +99,19 @@ def _work(arg):
         for quirks, qrole, qkinds in fam.quirk_roles:
             if mm['kind'] not in qkinds:
                 continue
+            # the finding explains the mismatch iff the reference WITH the finding emulated agrees with the
+            # real code (for this kind) under the counterexample's assignment
             try:
-                ref3, _ = ppsuite.run_reference(case, pg.items, case.path, std_evalfn(quirks), ref_files=getattr(pg, 'ref_files', None))
-                for fp in ref3:
-                    m = ppsuite.joint_model(fp.pc + [model_constraint(mm['model'])])
-                    if m is None:
+                cr3 = ppsuite.crosscheck(case, pg.items, std_evalfn(quirks), files_text=files_text, kinds=(mm['kind'],),
+                                         want_origins=False, max_paths=fam.max_paths, ref_files=getattr(pg, 'ref_files', None))
+                still = False
+                for m3 in cr3.mismatches:
+                    if m3['kind'] != mm['kind']:
                         continue
-                    if fp.value[0] == 'ok' and nat.get('ok') and [t.text for t in fp.value[1]] == ppsuite.tokens_of(nat['text']):
-                        role = qrole
-                    elif fp.value[0] == 'err' and not nat.get('ok'):
-                        core, d = ppsuite.err_core(nat['error'])
-                        if core['variant'] == fp.value[1]:
-                            role = qrole
+                    if all(m3['model'].get(k, v) == v for k, v in (mm['model'] or {}).items() if k in (m3['model'] or {})):
+                        still = True
+                if not still:
+                    role = qrole
             except Exception:
                 pass
             if role:
